@@ -35,6 +35,50 @@ theorem solver_forward_sound {D V : Type} [DecidableEq D] {A : Analysis D} {γ :
   Flow.forward_sound L g univ bc pc r v tr ht
     (fun b hb => Solver.solveFwd_solution A g univ bc pc hwf r h b (hkeys b hb))
 
+/-- flow layer, composed, backward pass: the values the backward solver RETURNS admit the concrete value at every block of
+    an accepting trace (leaves carry the forward values `ctx1`), under the decidable graph conditions `bwdWF` -/
+theorem solver_backward_sound {D V : Type} [DecidableEq D] {A : Analysis D} {γ : D → V → Prop} (L : Flow.GammaLaws A γ)
+    (g : Graph) (ctx1 : Nat → D) (hwf : Solver.bwdWF g = true)
+    (r : List (Nat × D)) (h : solveBwd A g ctx1 = some r) (v : V) (tr : List Nat)
+    (ht : Flow.BwdTrace g γ ctx1 v tr) (hkeys : ∀ b ∈ tr, b ∈ g.keys) :
+    ∀ i, i < tr.length → γ (getMap r tr[i]! A.dom.null) v :=
+  Flow.backward_sound L g ctx1 r v tr ht
+    (fun b hb hl => Solver.solveBwd_leaf A g ctx1 r h b (hkeys b hb) hl)
+    (fun b hb => Solver.solveBwd_solution A g ctx1 hwf r h b (hkeys b hb))
+
+/-- both passes: what `solve` returns admits the concrete value at every block of an accepting trace that satisfies the
+    forward and the backward trace facts -/
+theorem solver_sound {D V : Type} [DecidableEq D] {A : Analysis D} {γ : D → V → Prop} (L : Flow.GammaLaws A γ)
+    (g : Graph) (univ : D) (bc : Nat → D) (pc : Nat → Nat → D)
+    (hwf1 : Solver.fwdWF g = true) (hwf2 : Solver.bwdWF g = true)
+    (r : List (Nat × D)) (h : solve A g univ bc pc = .ok r) (v : V) (tr : List Nat)
+    (ht1 : Flow.FwdTrace g γ univ bc pc v tr) (hkeys : ∀ b ∈ tr, b ∈ g.keys)
+    (hshape : tr ≠ [] ∧ g.isLeaf tr[tr.length - 1]! = true ∧ (∀ i, i + 1 < tr.length → g.isLeaf tr[i]! = false) ∧
+      (∀ i, i + 1 < tr.length → tr[i+1]! ∈ g.nextG tr[i]!) ∧
+      (∀ i, i < tr.length → ∀ r, g.retPointOf tr[i]! = some r → g.calleeHasRetsub tr[i]! = true →
+        ∃ j, i < j ∧ j < tr.length ∧ tr[j]! = r)) :
+    ∀ i, i < tr.length → γ (getMap r tr[i]! A.dom.null) v := by
+  unfold solve at h
+  simp only [bind, Except.bind, pure, Except.pure, throw, throwThe, MonadExceptOf.throw] at h
+  cases h1 : solveFwd A g univ bc pc with
+  | none => simp [h1] at h
+  | some rout =>
+    simp only [h1] at h
+    cases h2 : solveBwd A g (fun k => getMap rout k A.dom.null) with
+    | none => simp [h2] at h
+    | some r' =>
+      simp only [h2, Except.ok.injEq] at h
+      subst h
+      have hf := solver_forward_sound L g univ bc pc hwf1 rout h1 v tr ht1 hkeys
+      obtain ⟨hne, hlast, hint, hedges, hret⟩ := hshape
+      refine solver_backward_sound L g _ hwf2 r' h2 v tr ?_ hkeys
+      exact { nonempty := hne, lastLeaf := hlast, interior := hint, edges := hedges, returns := hret
+              ctxOk := by
+                intro b hb
+                obtain ⟨i, hi, rfl⟩ := List.getElem_of_mem hb
+                have := hf i hi
+                simpa [hi] using this }
+
 /-- The solver's forward result is a solution of the reach-out equations (worklist theorem instantiated):
     stated for any analysis, under the two decidable graph conditions the driver checks on every program. -/
 def fwdInputs (g : Graph) (b : Nat) : List Nat :=
